@@ -1,9 +1,11 @@
 // C10 serve shim: computes every phosg hash of the request so that oracle/c10_hashes.py can compare with hashlib / zlib.
-//   "hash"  data, seeds(crc u32 | fnv32 u32 | fnv64 u64 = 16 bytes)
+//   "hash"  data, seeds(crc u32 | fnv32 u32 | fnv64 u64 = 16 bytes) [, ambient u64: process state in force while phosg computes
+//           and renders, see harness/c10/ambient.hh]
 //           -> md5.bin md5.hex sha1.bin sha1.hex sha256.bin sha256.hex  u64{crc32, fnv1a32, fnv1a64, crc32(seed), fnv1a32(seed), fnv1a64(seed)}
 //   "chain" a, b -> u64{crc32(b, crc32(a)), fnv1a32(b, fnv1a32(a)), fnv1a64(b, fnv1a64(a))}
 #include <phosg/Hash.hh>
 
+#include "../harness/c10/ambient.hh"
 #include "../shim/shim.hh"
 
 using namespace shim;
@@ -22,8 +24,10 @@ int main() {
       memcpy(&cs, seeds.data(), 4);
       memcpy(&s32, seeds.data() + 4, 4);
       memcpy(&s64, seeds.data() + 8, 8);
+      uint64_t ambient = req.size() > 3 ? get_u64(req[3]) : 0;
       // exactly sized heap copy: ASan sees an over-read
       std::vector<char> copy(d.begin(), d.end());
+      c10::Ambient guard(ambient); // restored before the reply is written
       phosg::MD5 m(copy.data(), copy.size());
       phosg::SHA1 s1(copy.data(), copy.size());
       phosg::SHA256 s2(copy.data(), copy.size());
